@@ -1,5 +1,5 @@
 /-
-  `Inv3` (place of every task, futures, global tickets) is inductive — part E.
+  `Inv3` (place of every task, futures, global tickets) is inductive — part X.
 -/
 import Babylon.Exec.Inv3X
 import Babylon.Exec.Inv2Pres
@@ -22,208 +22,16 @@ section
 variable {c : Cfg} {s s' : State} {t : Nat} {lb : Lbl}
 
 set_option maxHeartbeats 4000000 in
-theorem Inv3.step_f1 (I : Inv1 c s) (J : Inv2 c s) (K : Inv3 c s) (X : Inv3X s) (h : StepCase c s t lb s') :
-    ∀ id, s'.rejected id = true → s'.known id = false := by
-  intro id hr
-  have f1 := K.f1
-  have l4 := J.l4
-  have hwf := I.wf t
-  have hx1 := carry_dispatchPc
-  have hx2 := carry_onEmpty
-  have hx3 := exec_onEmpty
-  have hx4 := carry_markChain c
-  have hx5 := markChain_exec c
-  have hx6 := carry_afterStore c
-  have hx7 := exec_afterStore c
-  have hx8 := carry_afterSubmit c
-  have hx9 := exec_afterSubmit c
-  have hx10 := carry_afterSize c
-  have hx11 := exec_afterSize c
-  have hx14 := role_afterSubmit c
-  have hx15 := role_afterSize c
-  have hk : ∀ p k, s.pc t = .gPub p k → k.carry = none := by
-    intro p k hp; rw [hp] at hwf; exact carry_cont c none k hwf
-  clear I J K X hwf
-  cases h
-  case popClaim ctx i0 k0 nr cl hpc hq hi hcell hfull =>
-    have hit := (isTask_iff cl.item).mp (l4 k0 i0 cl hcell)
-    obtain ⟨idx, hidx⟩ := hit
-    have hc1 := Q.itemAt_eq _ _ _ hcell
-    have hc2 := Q.stAt_eq _ _ _ hcell
-    have hc3 : i0 < (s.l k0).cells.length := Q.stAt_some_lt _ _ _ hc2
-    rw [hidx] at hc1; rw [hfull] at hc2
-    clear hcell l4
-    cases ctx <;> simp only [hidx] at * <;> p_close
-  case wRecv i0 cl hpc hcell hfull =>
-    have hc1 := Q.itemAt_eq _ _ _ hcell
-    have hc2 := Q.stAt_eq _ _ _ hcell
-    have hc3 : i0 < s.g.cells.length := Q.stAt_some_lt _ _ _ hc2
-    rw [hfull] at hc2
-    clear hcell l4
-    cases hx : cl.item <;> simp only [hx] at * <;> p_close
-  case gPublish p k hpc hfree hst =>
-    have hc3 : p < s.g.cells.length := Q.stAt_some_lt _ _ _ hst
-    clear l4; p_close
-  case rLPub id0 cid p k0 hpc hown hfree hst =>
-    have hc3 : p < (s.l k0).cells.length := Q.stAt_some_lt _ _ _ hst
-    clear l4; p_close
-  all_goals (clear l4; try p_close)
-  all_goals (trace_state; sorry)
-
-set_option maxHeartbeats 4000000 in
-theorem Inv3.step_f3 (I : Inv1 c s) (J : Inv2 c s) (K : Inv3 c s) (X : Inv3X s) (h : StepCase c s t lb s') :
-    ∀ id, s'.done id = true → s'.futReady id = true := by
-  intro id hd
-  have f3 := K.f3
-  have l4 := J.l4
-  have hwf := I.wf t
-  have hx1 := carry_dispatchPc
-  have hx2 := carry_onEmpty
-  have hx3 := exec_onEmpty
-  have hx4 := carry_markChain c
-  have hx5 := markChain_exec c
-  have hx6 := carry_afterStore c
-  have hx7 := exec_afterStore c
-  have hx8 := carry_afterSubmit c
-  have hx9 := exec_afterSubmit c
-  have hx10 := carry_afterSize c
-  have hx11 := exec_afterSize c
-  have hx14 := role_afterSubmit c
-  have hx15 := role_afterSize c
-  have hk : ∀ p k, s.pc t = .gPub p k → k.carry = none := by
-    intro p k hp; rw [hp] at hwf; exact carry_cont c none k hwf
-  clear I J K X hwf
-  cases h
-  case popClaim ctx i0 k0 nr cl hpc hq hi hcell hfull =>
-    have hit := (isTask_iff cl.item).mp (l4 k0 i0 cl hcell)
-    obtain ⟨idx, hidx⟩ := hit
-    have hc1 := Q.itemAt_eq _ _ _ hcell
-    have hc2 := Q.stAt_eq _ _ _ hcell
-    have hc3 : i0 < (s.l k0).cells.length := Q.stAt_some_lt _ _ _ hc2
-    rw [hidx] at hc1; rw [hfull] at hc2
-    clear hcell l4
-    cases ctx <;> simp only [hidx] at * <;> p_close
-  case wRecv i0 cl hpc hcell hfull =>
-    have hc1 := Q.itemAt_eq _ _ _ hcell
-    have hc2 := Q.stAt_eq _ _ _ hcell
-    have hc3 : i0 < s.g.cells.length := Q.stAt_some_lt _ _ _ hc2
-    rw [hfull] at hc2
-    clear hcell l4
-    cases hx : cl.item <;> simp only [hx] at * <;> p_close
-  case gPublish p k hpc hfree hst =>
-    have hc3 : p < s.g.cells.length := Q.stAt_some_lt _ _ _ hst
-    clear l4; p_close
-  case rLPub id0 cid p k0 hpc hown hfree hst =>
-    have hc3 : p < (s.l k0).cells.length := Q.stAt_some_lt _ _ _ hst
-    clear l4; p_close
-  all_goals (clear l4; try p_close)
-  all_goals (trace_state; sorry)
-
-set_option maxHeartbeats 4000000 in
-theorem Inv3.step_f4 (I : Inv1 c s) (J : Inv2 c s) (K : Inv3 c s) (X : Inv3X s) (h : StepCase c s t lb s') :
-    ∀ id, s'.futValid id = true → s'.accepted id = true := by
-  intro id hv
-  have f4 := K.f4
-  have l4 := J.l4
-  have hwf := I.wf t
-  have hx1 := carry_dispatchPc
-  have hx2 := carry_onEmpty
-  have hx3 := exec_onEmpty
-  have hx4 := carry_markChain c
-  have hx5 := markChain_exec c
-  have hx6 := carry_afterStore c
-  have hx7 := exec_afterStore c
-  have hx8 := carry_afterSubmit c
-  have hx9 := exec_afterSubmit c
-  have hx10 := carry_afterSize c
-  have hx11 := exec_afterSize c
-  have hx14 := role_afterSubmit c
-  have hx15 := role_afterSize c
-  have hk : ∀ p k, s.pc t = .gPub p k → k.carry = none := by
-    intro p k hp; rw [hp] at hwf; exact carry_cont c none k hwf
-  clear I J K X hwf
-  cases h
-  case popClaim ctx i0 k0 nr cl hpc hq hi hcell hfull =>
-    have hit := (isTask_iff cl.item).mp (l4 k0 i0 cl hcell)
-    obtain ⟨idx, hidx⟩ := hit
-    have hc1 := Q.itemAt_eq _ _ _ hcell
-    have hc2 := Q.stAt_eq _ _ _ hcell
-    have hc3 : i0 < (s.l k0).cells.length := Q.stAt_some_lt _ _ _ hc2
-    rw [hidx] at hc1; rw [hfull] at hc2
-    clear hcell l4
-    cases ctx <;> simp only [hidx] at * <;> p_close
-  case wRecv i0 cl hpc hcell hfull =>
-    have hc1 := Q.itemAt_eq _ _ _ hcell
-    have hc2 := Q.stAt_eq _ _ _ hcell
-    have hc3 : i0 < s.g.cells.length := Q.stAt_some_lt _ _ _ hc2
-    rw [hfull] at hc2
-    clear hcell l4
-    cases hx : cl.item <;> simp only [hx] at * <;> p_close
-  case gPublish p k hpc hfree hst =>
-    have hc3 : p < s.g.cells.length := Q.stAt_some_lt _ _ _ hst
-    clear l4; p_close
-  case rLPub id0 cid p k0 hpc hown hfree hst =>
-    have hc3 : p < (s.l k0).cells.length := Q.stAt_some_lt _ _ _ hst
-    clear l4; p_close
-  all_goals (clear l4; try p_close)
-  all_goals (trace_state; sorry)
-
-set_option maxHeartbeats 4000000 in
-theorem Inv3.step_f5 (I : Inv1 c s) (J : Inv2 c s) (K : Inv3 c s) (X : Inv3X s) (h : StepCase c s t lb s') :
-    ∀ id, s'.preStop id = true → s'.accepted id = true := by
-  intro id hp
-  have f5 := K.f5
-  have l4 := J.l4
-  have hwf := I.wf t
-  have hx1 := carry_dispatchPc
-  have hx2 := carry_onEmpty
-  have hx3 := exec_onEmpty
-  have hx4 := carry_markChain c
-  have hx5 := markChain_exec c
-  have hx6 := carry_afterStore c
-  have hx7 := exec_afterStore c
-  have hx8 := carry_afterSubmit c
-  have hx9 := exec_afterSubmit c
-  have hx10 := carry_afterSize c
-  have hx11 := exec_afterSize c
-  have hx14 := role_afterSubmit c
-  have hx15 := role_afterSize c
-  have hk : ∀ p k, s.pc t = .gPub p k → k.carry = none := by
-    intro p k hp; rw [hp] at hwf; exact carry_cont c none k hwf
-  clear I J K X hwf
-  cases h
-  case popClaim ctx i0 k0 nr cl hpc hq hi hcell hfull =>
-    have hit := (isTask_iff cl.item).mp (l4 k0 i0 cl hcell)
-    obtain ⟨idx, hidx⟩ := hit
-    have hc1 := Q.itemAt_eq _ _ _ hcell
-    have hc2 := Q.stAt_eq _ _ _ hcell
-    have hc3 : i0 < (s.l k0).cells.length := Q.stAt_some_lt _ _ _ hc2
-    rw [hidx] at hc1; rw [hfull] at hc2
-    clear hcell l4
-    cases ctx <;> simp only [hidx] at * <;> p_close
-  case wRecv i0 cl hpc hcell hfull =>
-    have hc1 := Q.itemAt_eq _ _ _ hcell
-    have hc2 := Q.stAt_eq _ _ _ hcell
-    have hc3 : i0 < s.g.cells.length := Q.stAt_some_lt _ _ _ hc2
-    rw [hfull] at hc2
-    clear hcell l4
-    cases hx : cl.item <;> simp only [hx] at * <;> p_close
-  case gPublish p k hpc hfree hst =>
-    have hc3 : p < s.g.cells.length := Q.stAt_some_lt _ _ _ hst
-    clear l4; p_close
-  case rLPub id0 cid p k0 hpc hown hfree hst =>
-    have hc3 : p < (s.l k0).cells.length := Q.stAt_some_lt _ _ _ hst
-    clear l4; p_close
-  all_goals (clear l4; try p_close)
-  all_goals (trace_state; sorry)
-
-set_option maxHeartbeats 4000000 in
-theorem Inv3.step_f6 (I : Inv1 c s) (J : Inv2 c s) (K : Inv3 c s) (X : Inv3X s) (h : StepCase c s t lb s') :
-    ∀ id, s'.viaLocal id = true → s'.known id = true := by
-  intro id hv
-  have f6 := K.f6
+theorem Inv3.step_x1 (I : Inv1 c s) (J : Inv2 c s) (K : Inv3 c s) (X : Inv3X s) (h : StepCase c s t lb s') :
+    ∀ t' id, (s'.pc t').pushed = some id → s'.known id = true ∧ s'.accepted id = false ∧ (s'.gTicket id ≠ none ∨ s'.viaLocal id = true) := by
+  intro t' id hpu
+  have x1 := X.x1
+  have x2 := X.x2
+  have v2 := K.v2
+  have t3c := K.t3c
   have b3c := K.b3c
   have a5 := K.a5
+  have f2 := K.f2
   have l4 := J.l4
   have hwf := I.wf t
   have hx1 := carry_dispatchPc
@@ -239,6 +47,219 @@ theorem Inv3.step_f6 (I : Inv1 c s) (J : Inv2 c s) (K : Inv3 c s) (X : Inv3X s) 
   have hx11 := exec_afterSize c
   have hx14 := role_afterSubmit c
   have hx15 := role_afterSize c
+  have hy1 := pushed_dispatchPc
+  have hy2 := pushed_onEmpty
+  have hy3 := pushed_markChain c
+  have hy4 := pushed_afterStore c
+  have hy5 := pushed_afterSubmit c
+  have hy6 := pushed_afterSize c
+  have hy7 := pushed_afterLdRunS
+  have hy8 := pushed_afterLdRunB
+  have hy9 := pushed_afterJoinW c
+  have hy10 := pushed_claimPc
+  have hpk : ∀ x k, s.pc t = .gTake x k → k.pushed = none ∨ ∃ id, x = .task id ∧ k.pushed = some id := by
+    intro x k hp; rw [hp] at hwf; exact pushed_cont c x k hwf
+  have hx1t := X.x1 t
+  have hk : ∀ p k, s.pc t = .gPub p k → k.carry = none := by
+    intro p k hp; rw [hp] at hwf; exact carry_cont c none k hwf
+  have hb3c := b3c t
+  clear I J K X hwf
+  cases h
+  case popClaim ctx i0 k0 nr cl hpc hq hi hcell hfull =>
+    have hit := (isTask_iff cl.item).mp (l4 k0 i0 cl hcell)
+    obtain ⟨idx, hidx⟩ := hit
+    have hc1 := Q.itemAt_eq _ _ _ hcell
+    have hc2 := Q.stAt_eq _ _ _ hcell
+    have hc3 : i0 < (s.l k0).cells.length := Q.stAt_some_lt _ _ _ hc2
+    rw [hidx] at hc1; rw [hfull] at hc2
+    clear hcell l4
+    cases ctx <;> simp only [hidx] at * <;> p_close
+  case wRecv i0 cl hpc hcell hfull =>
+    have hc1 := Q.itemAt_eq _ _ _ hcell
+    have hc2 := Q.stAt_eq _ _ _ hcell
+    have hc3 : i0 < s.g.cells.length := Q.stAt_some_lt _ _ _ hc2
+    rw [hfull] at hc2
+    clear hcell l4
+    cases hx : cl.item <;> simp only [hx] at * <;> p_close
+  case gPublish p k hpc hfree hst =>
+    have hc3 : p < s.g.cells.length := Q.stAt_some_lt _ _ _ hst
+    clear l4; p_close
+  case rLPub id0 cid p k0 hpc hown hfree hst =>
+    have hc3 : p < (s.l k0).cells.length := Q.stAt_some_lt _ _ _ hst
+    clear l4; p_close
+  all_goals (clear l4; try p_close)
+  all_goals (trace_state; sorry)
+
+set_option maxHeartbeats 4000000 in
+theorem Inv3.step_x2 (I : Inv1 c s) (J : Inv2 c s) (K : Inv3 c s) (X : Inv3X s) (h : StepCase c s t lb s') :
+    ∀ t1 t2 id, (s'.pc t1).pushed = some id → (s'.pc t2).pushed = some id → t1 = t2 := by
+  intro t1 t2 id h1 h2
+  have x1 := X.x1
+  have x2 := X.x2
+  have v2 := K.v2
+  have t3c := K.t3c
+  have b3c := K.b3c
+  have l4 := J.l4
+  have hwf := I.wf t
+  have hx1 := carry_dispatchPc
+  have hx2 := carry_onEmpty
+  have hx3 := exec_onEmpty
+  have hx4 := carry_markChain c
+  have hx5 := markChain_exec c
+  have hx6 := carry_afterStore c
+  have hx7 := exec_afterStore c
+  have hx8 := carry_afterSubmit c
+  have hx9 := exec_afterSubmit c
+  have hx10 := carry_afterSize c
+  have hx11 := exec_afterSize c
+  have hx14 := role_afterSubmit c
+  have hx15 := role_afterSize c
+  have hy1 := pushed_dispatchPc
+  have hy2 := pushed_onEmpty
+  have hy3 := pushed_markChain c
+  have hy4 := pushed_afterStore c
+  have hy5 := pushed_afterSubmit c
+  have hy6 := pushed_afterSize c
+  have hy7 := pushed_afterLdRunS
+  have hy8 := pushed_afterLdRunB
+  have hy9 := pushed_afterJoinW c
+  have hy10 := pushed_claimPc
+  have hpk : ∀ x k, s.pc t = .gTake x k → k.pushed = none ∨ ∃ id, x = .task id ∧ k.pushed = some id := by
+    intro x k hp; rw [hp] at hwf; exact pushed_cont c x k hwf
+  have hx1t := X.x1 t
+  have hk : ∀ p k, s.pc t = .gPub p k → k.carry = none := by
+    intro p k hp; rw [hp] at hwf; exact carry_cont c none k hwf
+  have hb3c := b3c t
+  clear I J K X hwf
+  cases h
+  case popClaim ctx i0 k0 nr cl hpc hq hi hcell hfull =>
+    have hit := (isTask_iff cl.item).mp (l4 k0 i0 cl hcell)
+    obtain ⟨idx, hidx⟩ := hit
+    have hc1 := Q.itemAt_eq _ _ _ hcell
+    have hc2 := Q.stAt_eq _ _ _ hcell
+    have hc3 : i0 < (s.l k0).cells.length := Q.stAt_some_lt _ _ _ hc2
+    rw [hidx] at hc1; rw [hfull] at hc2
+    clear hcell l4
+    cases ctx <;> simp only [hidx] at * <;> p_close
+  case wRecv i0 cl hpc hcell hfull =>
+    have hc1 := Q.itemAt_eq _ _ _ hcell
+    have hc2 := Q.stAt_eq _ _ _ hcell
+    have hc3 : i0 < s.g.cells.length := Q.stAt_some_lt _ _ _ hc2
+    rw [hfull] at hc2
+    clear hcell l4
+    cases hx : cl.item <;> simp only [hx] at * <;> p_close
+  case gPublish p k hpc hfree hst =>
+    have hc3 : p < s.g.cells.length := Q.stAt_some_lt _ _ _ hst
+    clear l4; p_close
+  case rLPub id0 cid p k0 hpc hown hfree hst =>
+    have hc3 : p < (s.l k0).cells.length := Q.stAt_some_lt _ _ _ hst
+    clear l4; p_close
+  all_goals (clear l4; try p_close)
+  all_goals (trace_state; sorry)
+
+set_option maxHeartbeats 4000000 in
+theorem Inv3.step_f2 (I : Inv1 c s) (J : Inv2 c s) (K : Inv3 c s) (X : Inv3X s) (h : StepCase c s t lb s') :
+    ∀ id, s'.accepted id = true → s'.known id = true ∧ s'.futValid id = true := by
+  intro id ha
+  have f2 := K.f2
+  have x1 := X.x1
+  have l4 := J.l4
+  have hwf := I.wf t
+  have hx1 := carry_dispatchPc
+  have hx2 := carry_onEmpty
+  have hx3 := exec_onEmpty
+  have hx4 := carry_markChain c
+  have hx5 := markChain_exec c
+  have hx6 := carry_afterStore c
+  have hx7 := exec_afterStore c
+  have hx8 := carry_afterSubmit c
+  have hx9 := exec_afterSubmit c
+  have hx10 := carry_afterSize c
+  have hx11 := exec_afterSize c
+  have hx14 := role_afterSubmit c
+  have hx15 := role_afterSize c
+  have hy1 := pushed_dispatchPc
+  have hy2 := pushed_onEmpty
+  have hy3 := pushed_markChain c
+  have hy4 := pushed_afterStore c
+  have hy5 := pushed_afterSubmit c
+  have hy6 := pushed_afterSize c
+  have hy7 := pushed_afterLdRunS
+  have hy8 := pushed_afterLdRunB
+  have hy9 := pushed_afterJoinW c
+  have hy10 := pushed_claimPc
+  have hpk : ∀ x k, s.pc t = .gTake x k → k.pushed = none ∨ ∃ id, x = .task id ∧ k.pushed = some id := by
+    intro x k hp; rw [hp] at hwf; exact pushed_cont c x k hwf
+  have hx1t := X.x1 t
+  have hk : ∀ p k, s.pc t = .gPub p k → k.carry = none := by
+    intro p k hp; rw [hp] at hwf; exact carry_cont c none k hwf
+  clear I J K X hwf
+  cases h
+  case popClaim ctx i0 k0 nr cl hpc hq hi hcell hfull =>
+    have hit := (isTask_iff cl.item).mp (l4 k0 i0 cl hcell)
+    obtain ⟨idx, hidx⟩ := hit
+    have hc1 := Q.itemAt_eq _ _ _ hcell
+    have hc2 := Q.stAt_eq _ _ _ hcell
+    have hc3 : i0 < (s.l k0).cells.length := Q.stAt_some_lt _ _ _ hc2
+    rw [hidx] at hc1; rw [hfull] at hc2
+    clear hcell l4
+    cases ctx <;> simp only [hidx] at * <;> p_close
+  case wRecv i0 cl hpc hcell hfull =>
+    have hc1 := Q.itemAt_eq _ _ _ hcell
+    have hc2 := Q.stAt_eq _ _ _ hcell
+    have hc3 : i0 < s.g.cells.length := Q.stAt_some_lt _ _ _ hc2
+    rw [hfull] at hc2
+    clear hcell l4
+    cases hx : cl.item <;> simp only [hx] at * <;> p_close
+  case gPublish p k hpc hfree hst =>
+    have hc3 : p < s.g.cells.length := Q.stAt_some_lt _ _ _ hst
+    clear l4; p_close
+  case rLPub id0 cid p k0 hpc hown hfree hst =>
+    have hc3 : p < (s.l k0).cells.length := Q.stAt_some_lt _ _ _ hst
+    clear l4; p_close
+  all_goals (clear l4; try p_close)
+  all_goals (trace_state; sorry)
+
+set_option maxHeartbeats 4000000 in
+theorem Inv3.step_v2 (I : Inv1 c s) (J : Inv2 c s) (K : Inv3 c s) (X : Inv3X s) (h : StepCase c s t lb s') :
+    ∀ t' id, (s'.pc t').carry = some id → (s'.pc t').role ≠ .bal → s'.viaLocal id = false ∧ s'.accepted id = false := by
+  intro t' id hcar hrole
+  have v2 := K.v2
+  have f2 := K.f2
+  have f6 := K.f6
+  have a5 := K.a5
+  have b3c := K.b3c
+  have a6 := K.a6
+  have x1 := X.x1
+  have t3c := K.t3c
+  have l4 := J.l4
+  have hwf := I.wf t
+  have hx1 := carry_dispatchPc
+  have hx2 := carry_onEmpty
+  have hx3 := exec_onEmpty
+  have hx4 := carry_markChain c
+  have hx5 := markChain_exec c
+  have hx6 := carry_afterStore c
+  have hx7 := exec_afterStore c
+  have hx8 := carry_afterSubmit c
+  have hx9 := exec_afterSubmit c
+  have hx10 := carry_afterSize c
+  have hx11 := exec_afterSize c
+  have hx14 := role_afterSubmit c
+  have hx15 := role_afterSize c
+  have hy1 := pushed_dispatchPc
+  have hy2 := pushed_onEmpty
+  have hy3 := pushed_markChain c
+  have hy4 := pushed_afterStore c
+  have hy5 := pushed_afterSubmit c
+  have hy6 := pushed_afterSize c
+  have hy7 := pushed_afterLdRunS
+  have hy8 := pushed_afterLdRunB
+  have hy9 := pushed_afterJoinW c
+  have hy10 := pushed_claimPc
+  have hpk : ∀ x k, s.pc t = .gTake x k → k.pushed = none ∨ ∃ id, x = .task id ∧ k.pushed = some id := by
+    intro x k hp; rw [hp] at hwf; exact pushed_cont c x k hwf
+  have hx1t := X.x1 t
   have hk : ∀ p k, s.pc t = .gPub p k → k.carry = none := by
     intro p k hp; rw [hp] at hwf; exact carry_cont c none k hwf
   have hb3c := b3c t
